@@ -187,6 +187,7 @@ type world struct {
 	// scheduler interleaves them with the request's own cache reads.
 	bubble   bool
 	deferred []callInfo
+	ncalls   atomic.Int64 // store and cache calls made by the front end
 }
 
 type override struct {
@@ -220,6 +221,7 @@ func (c gCache) Set(ctx context.Context, key, chain []byte) error {
 }
 
 func (w *world) ask(ci callInfo) result {
+	w.ncalls.Add(1)
 	if w.free.Load() {
 		if w.bubble && ci.kind == "cache.Set" {
 			w.mu.Lock()
@@ -800,6 +802,9 @@ func runScenario(sc scenario, direct map[string][]*request) func(t *testing.T, x
 		w.env.Shutdown()
 		synctest.Wait()
 		x.Outcome = w.judge(direct, nreq)
+		if w.ncalls.Load() == 0 {
+			x.Outcome = "trivial (no store or cache call) " + x.Outcome
+		}
 	}
 }
 
